@@ -12,6 +12,7 @@ import (
 	"os"
 	"os/exec"
 	"path/filepath"
+	"runtime"
 	"sort"
 	"strings"
 
@@ -352,6 +353,15 @@ func c11Pool(rng *rand.Rand) (calls []c11Call, decDocs []string) {
 		desc string
 		mk   func() interface{}
 	}
+	// a destination that already holds something (filled by encoding/json: what it holds is part of
+	// the arguments of the call)
+	pre := func(mk func() interface{}, doc string) func() interface{} {
+		return func() interface{} {
+			v := mk()
+			_ = stdjson.Unmarshal([]byte(doc), v)
+			return v
+		}
+	}
 	dsts := []dst{
 		{"*C11Plain", func() interface{} { return &C11Plain{} }},
 		{"*interface{}", func() interface{} { return new(interface{}) }},
@@ -362,6 +372,14 @@ func c11Pool(rng *rand.Rand) (calls []c11Call, decDocs []string) {
 		{"*C11CtxU", func() interface{} { return &C11CtxU{} }},
 		{"*[]string", func() interface{} { return &[]string{} }},
 		{"*map[string]C11Str", func() interface{} { return &map[string]C11Str{} }},
+		{"*[]C11Plain(filled)", pre(func() interface{} { return &[]C11Plain{} }, `[{"a":7,"b":"old","c":[9]},{"a":8,"b":"old2"},{"a":9}]`)},
+		{"*[]*C11Plain(filled)", pre(func() interface{} { return &[]*C11Plain{} }, `[{"a":7,"b":"old","c":[9]},{"a":8,"b":"old2"}]`)},
+		{"*[]string(filled)", pre(func() interface{} { return &[]string{} }, `["old1","old2","old3","old4"]`)},
+		{"*C11Plain(filled)", pre(func() interface{} { return &C11Plain{} }, `{"a":7,"b":"old","c":[9,9,9]}`)},
+		{"*map[string]C11Str(filled)", pre(func() interface{} { return &map[string]C11Str{} }, `{"k":{"n":"7","s":"\"old\""},"old":{"n":"8"}}`)},
+		{"*interface{}(filled)", pre(func() interface{} { return new(interface{}) }, `{"old":[1,{"a":2}]}`)},
+		{"*[][]int(filled)", pre(func() interface{} { return &[][]int{} }, `[[1,2,3],[4,5],[6]]`)},
+		{"*[2][]string(filled)", pre(func() interface{} { return &[2][]string{} }, `[["a","b"],["c"]]`)},
 	}
 	docs := []string{
 		`{"a":1,"b":"x","c":[1,2,3]}`, `{"a":1,"b":2,"a":3,"b":4}`, `{"a":{"b":{"c":7}},"c":[10,20,30]}`,
@@ -369,12 +387,14 @@ func c11Pool(rng *rand.Rand) (calls []c11Call, decDocs []string) {
 		`["a","bé\n","` + strings.Repeat("long", 500+rng.Intn(5000)) + `"]`, `{"a":`, `{"a":1}}`, `[1,2`, `{"a":"str"}`, `nul`, `"x`,
 		`{"k":{"n":"1","s":"\"a\""},"j":{"n":"x"}}`, ` [ ] `, `{"a":1e999}`, `{"c":[1,"x"]}`, `12`, `"s"`, `null`,
 		`{"a":[{"b":1},{"b":[2,{"b":3}]}],"b":"top"}`,
+		`[{"a":1} x]`, `[{"a":1},`, `[{"a":2}]`, `[{"b":"new"},{"a":3}]`, `["n1" x]`, `["n1","n2"`, `["n1"]`, `[null,"n2"]`, `{"c":[1,2 x`, `{"c":[5]}`,
+		`[[7] x]`, `[[7,8],[9]]`, `[[null],[]]`, `{"k":{"n":"1"} x`, `{"k":{"s":"\"new\""}}`, `[{"c":[1 x`,
 	}
 	dd := &docGen{r: rng, noise: 15}
 	for i := 0; i < 6; i++ {
 		docs = append(docs, dd.any(3))
 	}
-	for i := 0; i < 28; i++ {
+	for i := 0; i < 60; i++ {
 		d := dsts[rng.Intn(len(dsts))]
 		doc := docs[rng.Intn(len(docs))]
 		short := doc
@@ -410,6 +430,55 @@ func c11Pool(rng *rand.Rand) (calls []c11Call, decDocs []string) {
 				return fmt.Sprintf("%s err=%s panic=%s", c11View(v), c11Err(err), pan)
 			})
 		}
+	}
+	// directed: for every container destination a decode that fails after an element into a filled
+	// destination, and decodes of short documents into empty and filled ones (what the failing call
+	// leaves in the decoder's pools must not show in the next)
+	byName := func(n string) dst {
+		for _, d := range dsts {
+			if d.desc == n {
+				return d
+			}
+		}
+		panic(n)
+	}
+	for _, dd := range []struct {
+		empty, filled string
+		fail, ok      []string
+	}{
+		{"*[]C11Plain", "*[]C11Plain(filled)", []string{`[{"a":1} x]`, `[{"a":1},{"a":2},`, `[{"c":[1 x`}, []string{`[{"a":2}]`, `[{"b":"n"},{"a":3}]`, `[null,{"a":4}]`}},
+		{"*[]string", "*[]string(filled)", []string{`["n1" x]`, `["n1","n2"`}, []string{`["m"]`, `[null,"m2"]`, `[null,null,null]`}},
+		{"*map[string]C11Str", "*map[string]C11Str(filled)", []string{`{"k":{"n":"1"} x`, `{"q":{"n":"x"}}`}, []string{`{"k":{"s":"\"new\""}}`, `{"z":{}}`}},
+		{"*C11Plain", "*C11Plain(filled)", []string{`{"c":[1,2 x`, `{"a":1,"c":[5,`}, []string{`{"c":[5]}`, `{"c":[null,7]}`, `{"b":"only"}`}},
+	} {
+		for _, which := range []string{dd.filled, dd.empty} {
+			d := byName(which)
+			for _, doc := range append(append([]string{}, dd.fail...), dd.ok...) {
+				doc := doc
+				add("Unmarshal "+d.desc+" <- "+doc, func(h *c11Handles) string {
+					v := d.mk()
+					err, pan := safeDo(func() error { return json.Unmarshal([]byte(doc), v) })
+					return fmt.Sprintf("%s err=%s panic=%s", c11View(v), c11Err(err), pan)
+				})
+			}
+		}
+	}
+	for _, extra := range []struct{ d, doc string }{
+		{"*[]*C11Plain(filled)", `[{"a":1} x]`}, {"*[]*C11Plain(filled)", `[{"a":2}]`}, {"*[][]int(filled)", `[[7] x]`}, {"*[][]int(filled)", `[[null],[]]`},
+		{"*[2][]string(filled)", `[["z" x`}, {"*[2][]string(filled)", `[[null]]`},
+	} {
+		d := byName(extra.d)
+		doc := extra.doc
+		add("Unmarshal "+d.desc+" <- "+doc, func(h *c11Handles) string {
+			v := d.mk()
+			err, pan := safeDo(func() error { return json.Unmarshal([]byte(doc), v) })
+			return fmt.Sprintf("%s err=%s panic=%s", c11View(v), c11Err(err), pan)
+		})
+		add("Decoder(fresh).Decode "+d.desc+" <- "+doc, func(h *c11Handles) string {
+			v := d.mk()
+			err, pan := safeDo(func() error { return json.NewDecoder(strings.NewReader(doc)).Decode(v) })
+			return fmt.Sprintf("%s err=%s panic=%s", c11View(v), c11Err(err), pan)
+		})
 	}
 	for i := 0; i < 6; i++ {
 		doc := docs[rng.Intn(len(docs))]
@@ -505,6 +574,30 @@ func c11Pool(rng *rand.Rand) (calls []c11Call, decDocs []string) {
 	return calls, decDocs
 }
 
+func c11Tail(s string) string {
+	if len(s) > 300 {
+		return s[len(s)-300:]
+	}
+	return s
+}
+
+// c11Diff shows a around the first position where it differs from b
+func c11Diff(a, b string) string {
+	i := 0
+	for i < len(a) && i < len(b) && a[i] == b[i] {
+		i++
+	}
+	lo := i - 80
+	if lo < 0 {
+		lo = 0
+	}
+	hi := i + 200
+	if hi > len(a) {
+		hi = len(a)
+	}
+	return fmt.Sprintf("(%d bytes; from byte %d) …%s…", len(a), lo, a[lo:hi])
+}
+
 var c11Stdout *os.File
 
 func c11StdoutLen() int64 {
@@ -536,13 +629,25 @@ func c11Cold(c *Ctx, spec string) {
 	c11CaptureStdout(os.TempDir())
 	calls, decDocs := c11Pool(caseRng(c.Seed, "histories", k))
 	res := "no-such-call"
+	if os.Getenv("VERIF_C11_NAMES") != "" {
+		var sb strings.Builder
+		for _, cl := range calls {
+			sb.WriteString(cl.name + "\n")
+		}
+		io.WriteString(real, sb.String())
+		return
+	}
 	if idx < len(calls) {
 		from := 0
 		if calls[idx].decIdx >= 0 {
 			from = calls[idx].decIdx
 		}
 		h := c11NewHandles(decDocs, from)
-		res = calls[idx].run(h)
+		// the pool is not referenced any more while the call runs: its argument is the caller's only
+		// reference to the value, as in `json.Marshal(makeValue())`
+		run := calls[idx].run
+		calls = nil
+		res = run(h)
 	}
 	if c11Stdout != nil {
 		os.Remove(c11Stdout.Name())
@@ -663,7 +768,41 @@ func runC11(c *Ctx) {
 			} else {
 				c.Rep.Hist["outcome:error-or-panic"]++
 			}
-			c.Oracle("history-vs-cold", fmt.Sprintf("case %d, step %d of %d: %s", k, step, len(hist), cl.name), trunc([]byte(got)), trunc([]byte(cold[ci])), got == cold[ci], "")
+			if got != cold[ci] && os.Getenv("VERIF_TRACE") != "" {
+				fmt.Fprintf(os.Stderr, "MISMATCH %s\n warm tail: %q\n cold tail: %q\n", cl.name, c11Tail(got), c11Tail(cold[ci]))
+			}
+			c.Oracle("history-vs-cold", fmt.Sprintf("case %d, step %d of %d: %s", k, step, len(hist), cl.name), c11Diff(got, cold[ci]), c11Diff(cold[ci], got), got == cold[ci], "")
+		}
+		// directed pairs: call A, then at once call B, for ordered pairs of free calls — a failing A before
+		// every B of the same kind, and a sample of all the others (one P, so that what A puts into a
+		// pool is what B takes out)
+		prev := runtime.GOMAXPROCS(1)
+		defer runtime.GOMAXPROCS(prev)
+		failing := func(i int) bool { return !strings.Contains(cold[i], "err=<nil> panic= ") && !strings.HasSuffix(cold[i], "err=<nil> panic=") }
+		family := func(i int) string {
+			n := calls[i].name
+			if j := strings.Index(n, " <- "); j > 0 {
+				n = n[:j]
+			}
+			f := strings.Fields(n)
+			return strings.TrimSuffix(strings.TrimPrefix(f[len(f)-1], "*"), "(filled)")
+		}
+		npairs := 0
+		for _, a := range free {
+			for _, b := range free {
+				sameFam := family(a) == family(b) && strings.Contains(calls[a].name, " <- ") && strings.Contains(calls[b].name, " <- ")
+				if !(sameFam || (failing(a) && hr.Intn(8) == 0) || hr.Intn(200) == 0) {
+					continue
+				}
+				if coldErr[a] != "" || coldErr[b] != "" {
+					continue
+				}
+				npairs++
+				calls[a].run(h)
+				got := calls[b].run(h)
+				c.Rep.Hist["pairs"]++
+				c.Oracle("pair-vs-cold", fmt.Sprintf("case %d: after [%s] the call [%s]", k, calls[a].name, calls[b].name), c11Diff(got, cold[b]), c11Diff(cold[b], got), got == cold[b], "")
+			}
 		}
 	}, func(k int, rng *rand.Rand) string { return fmt.Sprint("history case ", k) }, nil)
 }
